@@ -262,6 +262,104 @@ def check_parallel(ctx, n, perm, workers, use_steps_api=False):
     ctx.cls(f"parallel_n{n}")
 
 
+def check_parallel_history(ctx, ops, perm, workers):
+    """ops: list of ("add", name) | ("remove", index) applied to a ParallelModel; then one run with forced completion order `perm`."""
+    from kaira.models.generic.parallel import ParallelModel
+    cell = {"model": "parallel", "mode": "history", "workers": workers if workers is not None else "default"}
+    case = {"kind": "parallel_history", "ops": [list(o) for o in ops], "perm": list(perm), "workers": workers}
+    started, release, returning = {}, {}, {}
+
+    def mk(name):
+        started[name], release[name], returning[name] = threading.Event(), threading.Event(), threading.Event()
+
+        def f(x, *a, **kw):
+            started[name].set()
+            if not release[name].wait(10):
+                raise RuntimeError("gate timeout")
+            returning[name].set()
+            return ("val", name)
+        return f
+    outs = {}
+    for mode in ("dict", "agg"):
+        got = {}
+        m = ParallelModel(max_workers=workers, aggregator=(lambda vals: got.setdefault("agg", list(vals))) if mode == "agg" else None)
+        model = []
+        removed = False
+        for op in ops:
+            if op[0] == "add":
+                m.add_step(mk(op[1]), op[1])
+                model.append(op[1])
+            else:
+                if 0 <= op[1] < len(model):
+                    m.remove_step(op[1])
+                    model.pop(op[1])
+                    removed = True
+        if not model:
+            return
+        order = [model[i] for i in perm if i < len(model)]
+        err = []
+
+        def controller():
+            for name in order:
+                if not started[name].wait(10):
+                    err.append(name)
+                    for r in release.values():
+                        r.set()
+                    return
+                release[name].set()
+                returning[name].wait(10)
+                time.sleep(0.01)
+        t = threading.Thread(target=controller, daemon=True)
+        t.start()
+        res = m("in")
+        t.join(15)
+        if err or t.is_alive():
+            raise RuntimeError("harness gating failed")
+        outs[mode] = res if mode == "dict" else got.get("agg")
+    ctx.ev()
+    exp = [["val", nm] for nm in model]
+    d = outs["dict"]
+    ctx.check(isinstance(d, dict) and {k: list(v) for k, v in d.items()} == {nm: ["val", nm] for nm in model}, "C17.p_names", cell, case, str(d)[:200], None,
+              "after add/remove of steps the parallel model does not return each step's result under its name", CHK)
+    a = outs["agg"]
+    ctx.check(a is not None and [list(v) for v in a] == exp, "C17.p_aggregator_order", cell, case, str(a)[:200], exp, "after add/remove of steps the aggregator does not receive results in the current declared order", CHK)
+    if removed and len(model) >= 2:
+        ctx.nontrivial("parhist", str(ops), tuple(perm), workers)
+    ctx.cls("parallel_histories")
+
+
+def unit_parallel_histories(ctx, n_gen):
+    names = ["a", "b", "c", "d", "e", "f"]
+    opst = st.lists(st.one_of(st.just(("add",)), st.tuples(st.just("remove"), st.integers(0, 3))), min_size=2, max_size=9)
+
+    def f(t):
+        raw, pseed = t
+        ops, cnt, k = [], 0, 0
+        for o in raw:
+            if o[0] == "add" and cnt < 4 and k < len(names):
+                ops.append(("add", names[k]))
+                k += 1
+                cnt += 1
+            elif o[0] == "remove" and cnt > 0:
+                idx = o[1] % cnt
+                ops.append(("remove", idx))
+                cnt -= 1
+        if cnt < 2:
+            return
+        perms = list(itertools.permutations(range(cnt)))
+        rng = np.random.RandomState(pseed)
+        for pi in ([perms[-1]] + [perms[i] for i in rng.choice(len(perms), size=min(3, len(perms)), replace=False)]):
+            check_parallel_history(ctx, ops, pi, None)
+    draw_cases(st.tuples(opst, st.integers(0, 10 ** 6)), n_gen, ctx.seed * 19 + 7, f)
+    # planted: remove a non-last step, then add
+    for ops in ([("add", "a"), ("add", "b"), ("add", "c"), ("remove", 0), ("add", "d")], [("add", "a"), ("add", "b"), ("add", "c"), ("add", "d"), ("remove", 0), ("remove", 0), ("add", "e")],
+                [("add", "a"), ("add", "b"), ("remove", 1), ("add", "c"), ("remove", 0), ("add", "d")]):
+        n = sum(1 for o in ops if o[0] == "add") - sum(1 for o in ops if o[0] == "remove")
+        for perm in itertools.permutations(range(n)):
+            check_parallel_history(ctx, ops, perm, None)
+    ctx.sample({"histories": "add/remove sequences on ParallelModel (<= 4 live steps), then a run under forced completion orders"})
+
+
 def feasible(perm, w):
     return all(p < w + j for j, p in enumerate(perm))
 
@@ -457,6 +555,8 @@ def check_case(ctx, cell, case):
         check_sequence_model(ctx, case["model"], [tuple(o) for o in case["ops"]])
     elif k == "parallel":
         check_parallel(ctx, case["n"], case["perm"], case["workers"], case.get("steps_api", False))
+    elif k == "parallel_history":
+        check_parallel_history(ctx, [tuple(o) for o in case["ops"]], case["perm"], case["workers"])
     elif k == "branching":
         check_branching(ctx, case["conds"], case["default"], case["x"])
     elif k == "feedback":
@@ -470,6 +570,7 @@ def units(tier, seed):
     us = [Unit("fixed_pipelines", "c17:unit_fixed_pipelines", {}, 1), Unit("misc", "c17:unit_misc", {"n_gen": 2000 if T else 200}, 3)]
     for cls_name in ("sequential", "configurable"):
         us.append(Unit(f"sequence_sm_{cls_name}", "c17:unit_sequence_stateful", {"cls_name": cls_name, "examples": 1500 if T else 150, "steps": 20 if T else 12}, 4))
+    us.append(Unit("parallel_histories", "c17:unit_parallel_histories", {"n_gen": 300 if T else 40}, 5))
     nmax = 5 if T else 4
     for n in range(1, nmax + 1):
         for w in list(range(1, n + 1)) + [None]:
